@@ -98,6 +98,9 @@ func (h *H) Thorough() bool { return h.Tier == "thorough" }
 
 // IsKnown reports whether finding id is listed as an (unrepaired) known finding.
 func (h *H) IsKnown(id string) bool {
+	if os.Getenv("VERIF_FORGET_KNOWN") == id {
+		return false // development aid: hunt for a minimal reproduction of a known finding
+	}
 	k, ok := h.known[id]
 	return ok && k.Status == "known" && (k.Property == h.ID || k.Property == "")
 }
